@@ -321,6 +321,21 @@ func Start(s *simrt.Sched) *Session {
 		if req.Method() == "verif/getDocument" {
 			return reply(ctx, getDocument(srv, req.Params()), nil)
 		}
+		// Server methods that cmd/hledger-lsp does not wire into its dispatcher
+		// (code actions) are part of the server's public API and read the state
+		// that background tasks write; they are driven through debug methods,
+		// on the dispatcher task like any request.
+		if req.Method() == "verif/codeAction" {
+			if h, ok := interface{}(srv).(interface {
+				CodeAction(context.Context, *protocol.CodeActionParams) ([]protocol.CodeAction, error)
+			}); ok {
+				var p protocol.CodeActionParams
+				json.Unmarshal(req.Params(), &p)
+				r, err := h.CodeAction(ctx, &p)
+				return reply(ctx, r, err)
+			}
+			return reply(ctx, nil, nil)
+		}
 		return inner(ctx, reply, req)
 	}
 	stream := jsonrpc2.NewStream(rwc{s: sess, readFailed: new(bool)})
